@@ -263,6 +263,11 @@ class G:
         if self.r.random() < 0.5:
             return St("fn_return", [head, ret, "}", call],
                       [("wrong_return", [head, "  return %s" % w, "}", call], (0, 2), "%s <- %s" % (ty, t2)),
+                       # a `T?` may be nil: it is not a return value of a function declared `-> T` (outer variable, local, parameter)
+                       ("wrong_return", [head, "  return %s" % OPT_OF[ty], "}", call], (0, 2), "%s <- %s? (optional outer variable returned as a plain value)" % (ty, ty)),
+                       ("wrong_return", [head, "  lo%d: %s? = nil" % (n, ty), "  return lo%d" % n, "}", call], (0, 3), "%s <- %s? (optional local returned as a plain value)" % (ty, ty)),
+                       ("wrong_return", ["h%d = fn(a: %s, o: %s?) -> %s {" % (n, t1, ty, ty), "  return o", "}", "u%d = h%d(%s, nil)" % (n, n, self.e(t1))], (0, 2),
+                        "%s <- %s? (optional parameter returned as a plain value)" % (ty, ty)),
                        ("missing_return_value", [head, "  return ", "}", call], (0, 2), ""),
                        ("missing_return", [head, "}", call], (0, 1), "no return statement"),
                        ("wrong_arg_type", [head, ret, "}", "u%d = h%d(%s)" % (n, n, wa)], (3, 3), "%s <- %s" % (t1, ta)),
@@ -272,6 +277,7 @@ class G:
         mb = ["  if gb {", "    return %s" % self.e(ty), "  }"]
         return St("fn_return_branches", [head] + body + ["}", call],
                   [("wrong_return", [head] + wb + ["}", call], (0, 6), "else branch %s <- %s" % (ty, t2)),
+                   ("wrong_return", [head] + wb[:3] + ["    return %s" % OPT_OF[ty], "  }", "}", call], (0, 6), "else branch %s <- %s? (optional returned as a plain value)" % (ty, ty)),
                    ("missing_return", [head] + mb + ["}", call], (0, 4), "one branch does not return")])
 
     def t_fn_void(self):
@@ -363,7 +369,19 @@ class G:
         n = self.uid()
         lt, op, rt = self.r.choice(BAD_OPS)
         good = self.r.choice([("int", "+", "int"), ("int", "*", "float"), ("str", "+", "int"), ("int", "<", "int"), ("bool", "&&", "bool"), ("str", "==", "str")])
-        return St("binary_op", ["o%d = %s %s %s" % (n, self.e(good[0]), good[1], self.e(good[2]))],
+        first = "o%d = %s %s %s" % (n, self.e(good[0]), good[1], self.e(good[2]))
+        # values whose type is the ALIAS of a map, of a class, of a function type: an alias changes nothing about equality
+        als = ["type MB%d map[str,int]" % n,      # (no blank inside the type of an alias: the rule is atomic)
+               "ma%d: MB%d = gm" % (n, n), "xa%d: [MB%d...] = [ma%d]" % (n, n, n), "oa%d: MB%d? = ma%d" % (n, n, n),
+               "type PB%d Pt" % n, "pa%d: PB%d = gp" % (n, n), "xp%d: [PB%d...] = [pa%d]" % (n, n, n), "ol%d = xa%d.len() == xp%d.len()" % (n, n, n)]
+        eqop = self.r.choice(["==", "!="])
+        amuts = [("unsupported_operator", [first] + als[:7] + ["ol%d = %s %s %s" % (n, l, eqop, r_)], (8, 8), "equality of %s" % what)
+                 for l, r_, what in (("xa%d" % n, "xa%d" % n, "lists of values typed by the alias of a map"), ("ma%d" % n, "ma%d" % n, "values typed by the alias of a map"),
+                                     ("ma%d" % n, "gm", "a value typed by the alias of a map and a map"), ("oa%d" % n, "oa%d" % n, "optionals of the alias of a map"),
+                                     ("pa%d" % n, "pa%d" % n, "values typed by the alias of a class"), ("pa%d" % n, "gp", "a value typed by the alias of a class and an object"))]
+        amuts.append(("malformed_declaration", [first] + als[:7] + ["ol%d = map[MB%d, int] { }" % (n, n)], (8, 8), "a map type whose key type is the alias of a map"))
+        amuts.append(("malformed_declaration", [first] + als[:7] + ["ol%d = map[[MB%d...], int] { }" % (n, n)], (8, 8), "a map type whose key type is a list of the alias of a map"))
+        return St("binary_op", [first] + als, amuts +
                   [("unsupported_operator", ["o%d = %s %s %s" % (n, self.e(lt), op, self.e(rt))], (0, 0), "%s %s %s" % (lt, op, rt)),
                    ("unsupported_operator", ["o%d = %s %s %s" % (n, self.r.choice(["gl", "gp", "gm"]), self.r.choice(["+", "*", "<"]), self.e("int"))], (0, 0), "non-native operand"),
                    # equality exists for scalars, lists and optionals of them; not for maps, objects, functions
@@ -382,11 +400,24 @@ class G:
         n, ty = self.uid(), self.r.choice(TYPES)
         w, t2 = self.wrong(ty)
         wk, tk = self.wrong("str")
-        return St("map_literal", ['mm%d = map[str, %s] { "k": %s, "j": %s }' % (n, ty, self.e(ty), self.e(ty))],
-                  [("wrong_map_value", ['mm%d = map[str, %s] { "k": %s, "j": %s }' % (n, ty, self.e(ty), w)], (0, 0), "value %s <- %s" % (ty, t2)),
-                   ("wrong_map_key", ['mm%d = map[str, %s] { %s: %s }' % (n, ty, wk, self.e(ty))], (0, 0), "key str <- %s" % tk),
-                   ("unknown_name", ['mm%d = map[str, %s] { "k": nope%d }' % (n, ty, n)], (0, 0), "as a map value"),
-                   ("wrong_arg_type", ['mm%d = map[str, %s] { "k": %s(%s) }' % (n, "int", "fi", self.wrong("int")[0])], (0, 0), "call as a map value")])
+        # (a present value and nil are entries of a map whose values are optional; an optional is NOT an entry of a map whose
+        #  keys / values are plain, just as `m[k] = o` is refused)
+        rest = ['mo%d = map[str, %s?] { "k": %s, "j": nil }' % (n, ty, self.e(ty)), "ml%d: [int?...] = [1, nil]" % n,
+                'mn%d = map[str, [int...]] { "k": gl }' % n]
+
+        def lit(line):
+            return [line] + rest
+        return St("map_literal", lit('mm%d = map[str, %s] { "k": %s, "j": %s }' % (n, ty, self.e(ty), self.e(ty))),
+                  [("wrong_map_value", lit('mm%d = map[str, %s] { "k": %s, "j": %s }' % (n, ty, self.e(ty), w)), (0, 0), "value %s <- %s" % (ty, t2)),
+                   ("wrong_map_key", lit('mm%d = map[str, %s] { %s: %s }' % (n, ty, wk, self.e(ty))), (0, 0), "key str <- %s" % tk),
+                   ("wrong_map_value", lit('mm%d = map[str, %s] { "k": %s, "j": %s }' % (n, ty, self.e(ty), OPT_OF[ty])), (0, 0), "value %s <- %s? (optional into a plain slot)" % (ty, ty)),
+                   ("wrong_map_value", lit('mm%d = map[str, %s] { "k": %s }' % (n, ty, OPT_OF[ty])), (0, 0), "only value %s <- %s? (optional into a plain slot)" % (ty, ty)),
+                   ("wrong_map_key", lit('mm%d = map[str, %s] { gos: %s }' % (n, ty, self.e(ty))), (0, 0), "key str <- str? (optional into a plain slot)"),
+                   ("wrong_map_key", lit('mm%d = map[int, %s] { goi: %s }' % (n, ty, self.e(ty))), (0, 0), "key int <- int? (optional into a plain slot)"),
+                   ("wrong_map_value", [rest[0], rest[1], 'mn%d = map[str, [int...]] { "k": ml%d }' % (n, n)], (2, 2), "value [int...] <- [int?...]"),
+                   ("wrong_map_value", [rest[0], rest[1], 'mn%d = map[str, [int...]] { "k": [goi] }' % n], (2, 2), "value [int...] <- the literal [int?]"),
+                   ("unknown_name", lit('mm%d = map[str, %s] { "k": nope%d }' % (n, ty, n)), (0, 0), "as a map value"),
+                   ("wrong_arg_type", lit('mm%d = map[str, %s] { "k": %s(%s) }' % (n, "int", "fi", self.wrong("int")[0])), (0, 0), "call as a map value")])
 
     def t_list_elem(self):
         n, ty = self.uid(), self.r.choice(TYPES)
@@ -404,9 +435,14 @@ class G:
         a, b = self.e(t1), self.e(t2)
         extra = self.e(self.r.choice(TYPES))
         w1, _ = self.wrong(t1)
+        s1 = self.r.choice(["int", "str"])          # an open list whose elements fit every slot is accepted for a fixed shape ...
+        opn = {"int": "gl", "str": "gsl"}[s1]
         base = ["const fx%d: [%s, %s] = [%s, %s]" % (n, t1, t2, a, b),
                 "fh%d = fn(q: [%s, %s]) -> [%s, %s] {" % (n, t1, t2, t1, t2), "  return q", "}",
-                "const fy%d = fh%d([%s, %s])" % (n, n, a, b)]
+                "const fy%d = fh%d([%s, %s])" % (n, n, a, b),
+                "fo%d: [%s?...] = [%s, nil]" % (n, s1, self.e(s1)), "const fz%d: [%s, %s] = %s" % (n, s1, s1, opn),
+                "fk%d = fn(q: [%s, %s]) -> %s {" % (n, s1, s1, s1), "  return q[1]", "}", "fw%d = fk%d(%s)" % (n, n, opn),
+                "fr%d = fn() -> [%s, %s] {" % (n, s1, s1), "  return %s" % opn, "}"]
 
         def mut(i, line):
             m = list(base)
@@ -418,7 +454,12 @@ class G:
                    ("wrong_init", mut(0, "const fx%d: [%s, %s] = [%s, %s]" % (n, t1, t2, w1, b)), (0, 0), "fixed list: wrong element type"),
                    ("wrong_arg_type", mut(4, "const fy%d = fh%d([%s, %s, %s])" % (n, n, a, b, extra)), (4, 4), "fixed-list parameter: one element too many"),
                    ("wrong_arg_type", mut(4, "const fy%d = fh%d([%s])" % (n, n, a)), (4, 4), "fixed-list parameter: one element too few"),
-                   ("wrong_return", mut(2, "  return [%s, %s, %s]" % (a, b, extra)), (1, 3), "fixed-list result: one element too many")])
+                   ("wrong_return", mut(2, "  return [%s, %s, %s]" % (a, b, extra)), (1, 3), "fixed-list result: one element too many"),
+                   # ... but not one whose elements may be nil (`[T?...]` is no more a `[T, T]` than it is a `[T...]`), nor one of another type
+                   ("wrong_init", mut(6, "const fz%d: [%s, %s] = fo%d" % (n, s1, s1, n)), (6, 6), "fixed list [%s, %s] <- [%s?...]" % (s1, s1, s1)),
+                   ("wrong_init", mut(6, "const fz%d: [%s, %s] = %s" % (n, s1, s1, {"int": "gsl", "str": "gl"}[s1])), (6, 6), "fixed list [%s, %s] <- open list of another type" % (s1, s1)),
+                   ("wrong_arg_type", mut(10, "fw%d = fk%d(fo%d)" % (n, n, n)), (10, 10), "fixed-list parameter [%s, %s] <- [%s?...]" % (s1, s1, s1)),
+                   ("wrong_return", mut(12, "  return fo%d" % n), (11, 13), "fixed-list result [%s, %s] <- [%s?...]" % (s1, s1, s1))])
 
     def t_fn_typed(self):
         """function-typed positions (parameter, annotated variable, result): the supplied function must have exactly the
@@ -507,6 +548,7 @@ class G:
         return St("class_def", base,
                   [dmut("wrong_reassign", 3, "    self.x = %s" % w, "field int <- %s in constructor" % t2),
                    dmut("wrong_return", 6, "    return %s" % w, "method int <- %s" % t2),
+                   dmut("wrong_return", 6, "    return goi", "method int <- int? (optional returned as a plain value)"),
                    dmut("unknown_field", 6, "    return self.nofield%d" % n, "self.nofield"),
                    dmut("missing_return", 6, "    self.x = self.x + 0", "method declared -> int reaches its end without a return"),
                    dmut("wrong_reassign", 9, "    self.x = %s" % w, "field int <- %s in method" % t2),
@@ -565,14 +607,25 @@ class G:
         (a line that starts with `[` continues the expression of the previous line, hence the separator)"""
         n = self.uid()
         base = ["if gb {", "}", "[ua%d, ub%d] = gl" % (n, n), "uc%d: int = ua%d + ub%d" % (n, n, n),
-                "if gb {", "}", "[ud%d] = gsl" % n, "ue%d: str = ud%d" % (n, n)]
+                "if gb {", "}", "[ud%d] = gsl" % n, "ue%d: str = ud%d" % (n, n),
+                "type UK%d int" % n, "uk%d = map[UK%d, str] { 0: \"a\", 1: \"b\" }" % (n, n), "uo%d = map[int?, str] { }" % n,
+                "ui%d = map[int, str] { 0: \"a\", 1: \"b\" }" % n, "ug%d = map[bigint, str] { }" % n,
+                "if gb {", "}", "[uf%d, uh%d] = gl" % (n, n), "if gb {", "}", "[uj%d] = gl" % n]
+        # only a LIST has the elements `v[0]`, `v[1]`, ... the names are filled with: a map does not, whatever its keys are
+        maps = [("uk%d" % n, "a map whose key type is an alias of int"), ("uo%d" % n, "a map whose key type is int?"),
+                ("ui%d" % n, "a map keyed by int"), ("ug%d" % n, "a map keyed by bigint")]
 
         def mut(i, line):
             m = list(base)
             m[i] = line
             return m
-        return St("unpack", base,
-                  [("index_non_indexable", mut(2, "[ua%d, ub%d] = %s" % (n, n, self.r.choice(["gi", "gb", "gf", "gp", "fi"]))), (2, 2), "unpacking a value without elements"),
+        mm = []
+        for name, what in maps:
+            mm.append(("index_non_indexable", mut(15, "[uf%d, uh%d] = %s" % (n, n, name)), (15, 15), "unpacking " + what))
+            mm.append(("index_non_indexable", mut(18, "[uj%d] = %s" % (n, name)), (18, 18), "single-name unpacking of " + what))
+        return St("unpack", base, mm +
+                  [("index_non_indexable", mut(2, "[ua%d, ub%d] = %s" % (n, n, self.r.choice(["gm", "gs"]))), (2, 2), "unpacking a map keyed by str / a str"),
+                   ("index_non_indexable", mut(2, "[ua%d, ub%d] = %s" % (n, n, self.r.choice(["gi", "gb", "gf", "gp", "fi"]))), (2, 2), "unpacking a value without elements"),
                    ("index_non_indexable", mut(6, "[ud%d] = %s" % (n, self.r.choice(["gi", "gb", "gp"]))), (6, 6), "single-name unpacking of a value without elements"),
                    ("unknown_name", mut(2, "[ua%d, ub%d] = nolist%d" % (n, n, n)), (2, 2), ""),
                    ("wrong_init", mut(3, "uc%d: str = ua%d" % (n, n)), (3, 3), "str <- unpacked int"),
@@ -597,6 +650,56 @@ class G:
                    ("unsupported_operator", mut(1, "ur%d = (gi + 1) ?= goi" % n), (1, 1), "?= with an expression on the left"),
                    ("unsupported_operator", mut(1, "ur%d = uo%d ?= gs" % (n, n)), (1, 1), "int? ?= str"),
                    ("unknown_name", mut(1, "ur%d = nope%d ?= goi" % (n, n)), (1, 1), "")])
+
+    def t_or_fallback(self):
+        """`(x) or y` has the PRESENT type of x: the fallback y must be a plain value of that type, whether x is a local, a
+        module-level variable read inside a function (a captured variable) or a parameter"""
+        n, ty = self.uid(), self.r.choice(TYPES)
+        w, t2 = self.wrong(ty)
+        o = OPT_OF[ty]
+        base = ["ox%d: %s? = nil" % (n, ty), "oy%d: %s? = nil" % (n, ty), "or%d: %s = (%s) or %s" % (n, ty, o, self.e(ty)), "os%d: %s = (ox%d) or %s" % (n, ty, n, self.e(ty)),
+                "ok%d = fn(p: %s?, q: %s?) -> %s {" % (n, ty, ty, ty), "  ot%d = (%s) or %s" % (n, o, self.e(ty)), "  ou%d = (p) or ot%d" % (n, n), "  ov%d = (ox%d) or ou%d" % (n, n, n),
+                "  return ov%d" % n, "}", "ow%d: %s = ok%d(nil, nil)" % (n, ty, n)]
+
+        def mut(i, line):
+            m = list(base)
+            m[i] = line
+            return m
+        muts = []
+        for i, pre, x, alts in ((2, "or%d: %s = " % (n, ty), o, [o, "oy%d" % n]), (3, "os%d: %s = " % (n, ty), "ox%d" % n, ["oy%d" % n, o]),
+                                (5, "  ot%d = " % n, o, [o, "oy%d" % n, "q"]), (6, "  ou%d = " % n, "p", ["q", "p", o]), (7, "  ov%d = " % n, "ox%d" % n, ["oy%d" % n, "q", o])):
+            span = (i, i) if i < 4 else (4, 9)
+            for y in alts:
+                muts.append(("unsupported_operator", mut(i, "%s(%s) or %s" % (pre, x, y)), span, "fallback of `(%s) or ..` is the optional %s (the result may be nil)" % (x, y)))
+            muts.append(("unsupported_operator", mut(i, "%s(%s) or %s" % (pre, x, w)), span, "fallback of `(%s) or ..`: %s where %s is required" % (x, t2, ty)))
+        return St("or_fallback", base, muts)
+
+    def t_map_result(self):
+        """the elements of `l.map(f)` have the result type of f: with f: fn(int) -> int? they are optionals, which do not fit a plain slot"""
+        n = self.uid()
+        base = ["gq%d = fn(x: int) -> int? {" % n, "  if x == 2 {", "    return nil", "  }", "  return x", "}",
+                "gr%d = gl.map(gq%d)" % (n, n), "gv%d: int? = gr%d[1]" % (n, n), "gw%d: [int?...] = gl.map(gq%d)" % (n, n),
+                "gt%d: int? = 0" % n, "gu%d = gt%d ?= gr%d[1]" % (n, n, n), "gx%d: int? = 1" % n, "gx%d = gr%d[0]" % (n, n),
+                "gy%d = fi((gr%d[0]) or 1)" % (n, n), "gz%d: [int...] = [1]" % n, "gz%d[0] = (gr%d[0]) or 2" % (n, n),
+                "gp%d = gl.map(fi)" % n, "go%d: [int...] = gp%d" % (n, n), "gn%d: int = gp%d[0]" % (n, n)]
+
+        def mut(i, line, more=()):
+            m = list(base)
+            m[i] = line
+            for j, l in more:
+                m[j] = l
+            return m
+        return St("map_result", base,
+                  [("wrong_init", mut(7, "gv%d: int = gr%d[1]" % (n, n)), (7, 7), "int <- element of the list of int? made by map"),
+                   ("wrong_init", mut(8, "gw%d: [int...] = gl.map(gq%d)" % (n, n)), (8, 8), "[int...] <- the list of int? made by map"),
+                   ("wrong_init", mut(8, "gw%d: [int...] = gr%d" % (n, n)), (8, 8), "[int...] <- a variable holding the list of int? made by map"),
+                   ("wrong_init", mut(8, "gw%d: [str?...] = gl.map(gq%d)" % (n, n)), (8, 8), "[str?...] <- the list of int? made by map"),
+                   ("wrong_init", mut(17, "go%d: [str...] = gp%d" % (n, n)), (17, 17), "[str...] <- the list of int made by map"),
+                   ("wrong_init", mut(18, "gn%d: str = gp%d[0]" % (n, n)), (18, 18), "str <- element of the list of int made by map"),
+                   ("unsupported_operator", mut(10, "gu%d = gt%d ?= gr%d[1]" % (n, n, n), [(9, "gt%d: int = 0" % n)]), (10, 10), "int ?= element of the list of int? made by map"),
+                   ("wrong_reassign", mut(12, "gx%d = gr%d[0]" % (n, n), [(11, "gx%d: int = 1" % n)]), (12, 12), "int <- element of the list of int? made by map"),
+                   ("wrong_arg_type", mut(13, "gy%d = fi(gr%d[0])" % (n, n)), (13, 13), "int parameter <- element of the list of int? made by map"),
+                   ("wrong_reassign", mut(15, "gz%d[0] = gr%d[0]" % (n, n)), (15, 15), "list element int <- element of the list of int? made by map")])
 
     def t_declaration_shape(self):
         """(beyond the property's fault catalogue, same demand: the diagnostic names the SOURCE file) ill-formed
@@ -692,7 +795,7 @@ class G:
     TEMPLATES = ["t_decl_annot", "t_decl_alias", "t_decl_optional", "t_reassign", "t_call1", "t_call2", "t_mcall", "t_field",
                  "t_fn_ret", "t_fn_void", "t_cond_if", "t_cond_while", "t_cond_elseif", "t_index_list", "t_index_map", "t_binop",
                  "t_unary", "t_map_value", "t_list_elem", "t_class_def", "t_opassign_fit", "t_fn_ret_shapes", "t_fixed_list", "t_obj_field", "t_index_write", "t_fn_typed",
-                 "t_self_sig", "t_assert", "t_unpack", "t_unwrap_into", "t_declaration_shape", "t_from_loop"]
+                 "t_self_sig", "t_assert", "t_unpack", "t_unwrap_into", "t_declaration_shape", "t_from_loop", "t_or_fallback", "t_map_result"]
     CONTEXTS = ["top", "function", "closure", "method", "constructor", "if", "else_if", "else", "while", "from"]
 
     # ---------------------------------------------------------------- contexts
